@@ -7,7 +7,7 @@ cd "$(dirname "$0")/.."
 for p in $CHECKS; do
   t0=$(date +%s)
   L=/tmp/verif_run_${TIER}_${SEED}_$p.log
-  VERIF_SEED=$SEED /venv/bin/python -m vlib.check $p --tier $TIER > $L 2>&1
+  VERIF_SEED=$SEED /venv/bin/python -m vlib.check $p --tier $TIER ${VERIF_BUDGET:+--budget $VERIF_BUDGET} > $L 2>&1
   rc=$?
   t1=$(date +%s)
   echo "$p rc=$rc $((t1-t0))s $(grep -E "^$p $TIER" $L | cut -c1-150) $(grep -c '^VIOLATION' $L) VIOLATION-lines $(grep -c '^KNOWN-FINDING' $L) KNOWN $(grep -E '^INCONCLUSIVE' $L | cut -c1-120)"
